@@ -752,7 +752,9 @@ fn case_e2e(ctx: &mut Ctx, stream: &str, idx: u64, r: &mut Rng) {
 			bad = Some(format!("frame {}: left {} != right {} for a centred DC sound", i, a, b));
 			break;
 		}
-		if (a - prev) * dir < -1e-7 {
+		// (at -60 dB the amplitude law jumps between 0.001 and 0 by definition: f32 rounding decides the side there)
+		let at_floor = a.max(prev) <= DC * 0.00101;
+		if !at_floor && (a - prev) * dir < -1e-7 {
 			bad = Some(format!("frame {}: gain {} moved away from target after {}", i, a, prev));
 			break;
 		}
@@ -762,8 +764,16 @@ fn case_e2e(ctx: &mut Ctx, stream: &str, idx: u64, r: &mut Rng) {
 	for c in 0..chunks + 2 {
 		let t = (c + 1) as f64 * ibs as f64 / sr as f64;
 		let got = l[(c + 1) * ibs - 1];
+		// kira keeps the duration as a Duration (whole nanoseconds)
+		let dur = Duration::from_secs_f64(dur).as_secs_f64();
 		let want_db = if t >= dur { target_db as f64 } else { target_db as f64 * ease_ref(easing, t / dur) };
 		let want = DC * crate::refmodel::db_to_amp(want_db) as f32;
+		// measured conditioning: how much the law moves for a time error of one nanosecond (steep easings next to an end)
+		let cond = {
+			let e = |tt: f64| if tt >= dur { target_db as f64 } else { target_db as f64 * ease_ref(easing, (tt / dur).clamp(0.0, 1.0)) };
+			let (lo, hi) = (DC * crate::refmodel::db_to_amp(e(t - 1e-9)) as f32, DC * crate::refmodel::db_to_amp(e(t + 1e-9)) as f32);
+			(hi - lo).abs()
+		};
 		if t >= dur + 1e-9 {
 			if got != tgt_amp {
 				bad = Some(format!("chunk {}: tween over but gain {} != exact target amplitude {}", c, got, tgt_amp));
@@ -773,7 +783,7 @@ fn case_e2e(ctx: &mut Ctx, stream: &str, idx: u64, r: &mut Rng) {
 			if !(got >= 0.0 && got <= DC * 0.00101) {
 				bad = Some(format!("chunk {} end: gain {} near the -60 dB threshold is neither silence nor ~0.001", c, got));
 			}
-		} else if (got - want).abs() > 2e-5 * want.max(1e-4) + 1e-7 {
+		} else if (got - want).abs() > 2e-5 * want.max(1e-4) + 1e-7 + cond {
 			bad = Some(format!("chunk {} end (t={}): gain {} != amplitude of eased dB {} ", c, t, got, want));
 		}
 	}
